@@ -309,6 +309,9 @@ def run(ctx):
         ctx.ob("C05.4", f"{Q}.serialize: marker positions strictly decrease with resolution", core.DISCHARGED if dec else core.VIOLATED,
                core.loc(SER, ctx.sources.func(SER, "serialize")), f"marker bit by resolution: {marks}")
     ctx.floor("resolutions analysed", len(layout), 25)
+    # ---- C05.10: a decoded cell is a record of its own ----------------------------------------------------------------
+    from . import purity
+    purity.fresh_result(ctx, "C05.10", "a5.core.serialization.deserialize", "the decoded cell")
     hil = [(r, p) for r, p in marks if r >= consts.FIRST]
     ctx.analysed.update({
         "functions": [f"{Q}.serialize", f"{Q}.deserialize", f"{Q}.get_resolution", "a5.core.cell_info.get_num_cells",
